@@ -761,8 +761,9 @@ theorem gen_shutdown_sites_safe : sitesSafe codeSites = true := by decide
 /-- ANY safe site list, ANY history of removals by others, self-removals (succeeding or failing), watch rounds (answered or
     not), operator stops (leaving or not, `RmPeer(self)` succeeding or not) and writes, any `backups_rotate`, any
     `data_folder` spelling: a peer that has stopped and is no member any more holds no consensus data — unless the
-    history left the statement (`outside`: stopped by the operator after its removal and before its watch round, or
-    removed while down; both refuted below). -/
+    history left the statement (`outside`: stopped by the operator after its removal and before its watch round by a
+    `Shutdown` that does not consult an answering `consensus.Peers`, or removed while down). Round 8c states the same for
+    today's consulting `Shutdown` WITHOUT the marker: `departure_cleans_today`. -/
 theorem departure_cleans (sites : List Site) (hs : sitesSafe sites = true) (keep : Nat) (slash leave : Bool)
     (backups : Nat) (evs : List DEv) (consult : Bool := false) :
     let st := depRun sites keep slash (freshPeer leave backups consult) evs
